@@ -109,6 +109,7 @@ OptPlain == {Opt(FALSE, {}, {})}
 OptMulti == {Opt(FALSE, {}, {}), Opt(TRUE, {}, {})}
 OptAllow == {Opt(TRUE, {}, {})}
 OptUndef == {Opt(FALSE, {}, {}), Opt(FALSE, {"a"}, {})}
+OptRootA == {Opt(FALSE, {"a"}, {})}
 OptWrap == {Opt(FALSE, {}, {"s"})}
 
 -----------------------------------------------------------------------------
